@@ -11,7 +11,7 @@ def run(tier, seed):
     rng = random.Random(seed * 104729 + 9)
     rep = vlib.Report(PROP, tier, seed, "model_checking")
     binary = mx.build_driver()
-    runs = [vlib.tlc_expect_ok("MCMux", "mux_C_timed.cfg"), vlib.tlc_expect_ok("MCMux", "mux_B_safety.cfg")]
+    runs = [vlib.tlc_expect_ok("MCMux", "mux_C_timed.cfg"), vlib.tlc_expect_ok("MCMux", "mux_E_timed.cfg"), vlib.tlc_expect_ok("MCMux", "mux_E_safety.cfg"), vlib.tlc_expect_ok("MCMux", "mux_B_safety.cfg")]
     if tier == "thorough":
         runs += [vlib.tlc_expect_ok("MCMux", "mux_A_timed.cfg", timeout=3000),
                  vlib.tlc_expect_ok("MCMux", "mux_B_timed.cfg", timeout=3000)]
